@@ -208,8 +208,10 @@ fn contexts(byte: u8) -> Vec<(&'static str, Vec<u8>)> {
 }
 
 pub fn run(ctx: &mut Ctx) {
-    let thorough = ctx.tier.thorough();
-    ctx.rule = "(1) 12 programs with non-ASCII text in comments and strings (valid and with a fault after the non-ASCII text, same line and later line) x 5 encodings through `ironplcc check` and `tokenize`; (2) every byte 0x00-0xFF x 4 contexts through the binary and in-process; (3) all 1-byte files (thorough: all 2-byte files) in-process and BOM-prefixed ones through the binary; (4) size sweep: a 2-, 3- or 4-byte character at every offset of a file growing to 2.2 k (thorough 9 k) characters and straddling every power of two from 4 KiB to 64 KiB in each encoding, in-process and a subset through the binary; distinct = distinct file contents".into();
+    // quick = the former thorough tier; thorough = a longer size sweep and all 2-byte continuations of every BOM
+    let deep = ctx.tier.thorough();
+    let thorough = true;
+    ctx.rule = "(1) 12 programs with non-ASCII text in comments and strings (valid and with a fault after the non-ASCII text, same line and later line) x 5 encodings through `ironplcc check` and `tokenize`; (2) every byte 0x00-0xFF x 4 contexts through the binary and in-process; (3) all 1-byte files (and all 2-byte files; thorough: all 2-byte continuations of every BOM) in-process and BOM-prefixed ones through the binary; (4) size sweep: a 2-, 3- or 4-byte character at every offset of a file growing to 4.3 k (thorough 20 k) characters and straddling every power of two from 4 KiB to 64 KiB in each encoding, in-process and a subset through the binary; distinct = distinct file contents".into();
     ctx.assumptions.push("all non-ASCII characters used in (1) exist in Windows-1252 and their Windows-1252 bytes are not valid UTF-8 (asserted), so the intended decoding is unambiguous".into());
     ctx.assumptions.push("positions are compared as printed by the binary (line:column of the first location block)".into());
     ctx.bounds.insert("encodings".into(), json!(ENCODINGS));
@@ -430,6 +432,18 @@ pub fn run(ctx: &mut Ctx) {
             }
         }
     }
+    if deep {
+        for bom in [vec![0xEFu8, 0xBB, 0xBF], vec![0xFF, 0xFE], vec![0xFE, 0xFF]] {
+            for a in 0u16..=255 {
+                for b in 0u16..=255 {
+                    let mut v = bom.clone();
+                    v.push(a as u8);
+                    v.push(b as u8);
+                    short.push(v);
+                }
+            }
+        }
+    }
     for bom in [vec![0xEFu8, 0xBB, 0xBF], vec![0xFF, 0xFE], vec![0xFE, 0xFF]] {
         for b in 0u16..=255 {
             let mut v = bom.clone();
@@ -489,7 +503,7 @@ pub fn run(ctx: &mut Ctx) {
     }
     // ---- (4) size sweep: one non-ASCII character at every byte offset of a growing file, and straddling
     // every power-of-two offset up to 64 KiB in every encoding (block-wise reading / sniffing must not show)
-    let limit = if thorough { 9000 } else { 2200 };
+    let limit = if deep { 20000 } else { 4300 };
     let chars: [(char, &str); 3] = [('\u{e9}', "two-byte"), ('\u{20ac}', "three-byte"), ('\u{1F600}', "four-byte")];
     let mut sweep: BTreeSet<(usize, usize)> = BTreeSet::new(); // (character index, pad)
     for (ci, _) in chars.iter().enumerate() {
